@@ -366,6 +366,12 @@ func c12EncodeCase(c *rt.Ctx, sub int, r *rand.Rand) {
 		return
 	}
 	c.Eval(2)
+	if (gerr2 != nil) == (err2 != nil) && !bytes.Equal(got2, want2) && strings.HasPrefix(differKind(want2, got2), "members-reordered") {
+		// two calls on the same map value may order members whose written names coincide
+		// differently (C13's KF-C13-06); that is not an effect of the scribbling
+		c.Obs("encode_repeat_differs_only_in_member_order_judged_by_C13", 1)
+		return
+	}
 	if (gerr2 != nil) != (err2 != nil) || !bytes.Equal(got2, want2) {
 		c.Violate(rt.Violation{Monitor: "output-owned", Entry: e.name, Kind: "later-result-affected-by-scribble", Ctx: diffClass(want2, got2), Detail: "expected " + rt.Q(want2) + " got " + rt.Q(got2), Input: input, Sub: sub})
 		return
